@@ -36,6 +36,8 @@ type FnDecl struct {
 	Out     []Field
 	Err     bool
 	Once    bool
+	Built   bool // assembled with BuildFunc from two value sets (struct in, struct out, error)
+	Ident   bool // identity body (returns its arguments, records nothing): the twin of Convert
 	// materialised
 	ftype int
 	fn    *am.Func
@@ -82,13 +84,15 @@ type BehRow struct {
 }
 
 type Op struct {
-	Kind     string // call convert redefine callredef
-	Target   int    // function index (call/redefine)
-	Ty       int    // convert
-	Defaults []Opt
-	Opts     []Opt
-	Ref      int   // callredef: index of the redefine op
-	Vals     []int // callredef: serial per declared input (filled at run time)
+	Kind        string // call convert redefine callredef
+	Target      int    // function index (call/redefine)
+	Ty          int    // convert
+	Defaults    []Opt
+	Opts        []Opt
+	Ref         int   // callredef: index of the redefine op
+	Vals        []int // callredef: serial per declared input (filled at run time)
+	OrdSeed     uint64
+	SharePrefix int // >0: Defaults = Defaults of op (SharePrefix-1) plus more, built on the same backing array
 }
 
 type Scenario struct {
@@ -143,11 +147,38 @@ type runtimeT struct {
 
 var nullLog = am.Logger(hclog.NewNullLogger())
 
+// error values of several shapes: ordinary pointer errors, and errors whose
+// dynamic value is the zero value of its type (errno(0), struct{}, nil pointer
+// of an error type) -- all non-nil as error interface values
+type errno int
+
+func (e errno) Error() string { return fmt.Sprintf("scenario errno %d", int(e)) }
+
+type errEmpty struct{}
+
+func (errEmpty) Error() string { return "scenario empty error" }
+
+type errPtr struct{ id int }
+
+func (e *errPtr) Error() string { return "scenario pointer error" }
+
 func (rt *runtimeT) errOf(e int) error {
 	if x, ok := rt.errs[e]; ok {
 		return x
 	}
-	x := fmt.Errorf("scenario error %d", e)
+	var x error
+	switch e {
+	case 900:
+		x = errno(0)
+	case 901:
+		x = errEmpty{}
+	case 902:
+		x = (*errPtr)(nil)
+	case 903:
+		x = errno(903)
+	default:
+		x = fmt.Errorf("scenario error %d", e)
+	}
 	rt.errs[e] = x
 	return x
 }
@@ -207,7 +238,89 @@ func (rt *runtimeT) funcType(d *FnDecl) reflect.Type {
 	return reflect.FuncOf(in, out, false)
 }
 
+func valueSetOf(fs []Field) (*am.ValueSet, error) {
+	var vs []am.Value
+	for _, f := range fs {
+		vs = append(vs, am.Value{Name: f.Name, Type: tyOf[f.Ty], Subtype: f.Sub})
+	}
+	return am.NewValueSet(vs)
+}
+
+func setPtr(set *am.ValueSet, f Field) *am.Value {
+	if f.Name != "" {
+		return set.Named(f.Name)
+	}
+	return set.Typed(tyOf[f.Ty])
+}
+
+// materialiseBuilt assembles the function with BuildFunc: the callback reads
+// its arguments from the input set and writes its results into the output set.
+func (rt *runtimeT) materialiseBuilt(d *FnDecl) error {
+	in, err := valueSetOf(d.In)
+	if err != nil {
+		return err
+	}
+	out, err := valueSetOf(d.Out)
+	if err != nil {
+		return err
+	}
+	cb := func(i, o *am.ValueSet) error {
+		rt.nexec++
+		n := rt.nexec
+		var argIDs, outIDs []string
+		for _, f := range d.In {
+			argIDs = append(argIDs, fmt.Sprintf("(mkV %s %s)", z(serialOf(setPtr(i, f).Value)), z(f.Ty)))
+		}
+		kind, e := rt.behOf(d.ID, n)
+		if kind == 2 {
+			kind = 0
+		}
+		for k, f := range d.Out {
+			s := 1000*n + k + 1
+			if kind != 0 {
+				s = 0
+				setPtr(o, f).Value = reflect.Zero(tyOf[f.Ty])
+			} else if c, ok := carrier[f.Ty]; ok && (n+k)%2 == 0 {
+				// the way a callback naturally fills an interface-typed output
+				setPtr(o, f).Value = mkVal(c, s)
+			} else {
+				setPtr(o, f).Value = mkFieldVal(f.Ty, s)
+			}
+			outIDs = append(outIDs, fmt.Sprintf("(mkV %s %s)", z(s), z(f.Ty)))
+		}
+		errTerm := "None"
+		var ret error
+		if kind == 1 {
+			ret = rt.errOf(e)
+			errTerm = fmt.Sprintf("(Some %s)", z(e))
+		}
+		rt.events = append(rt.events, fmt.Sprintf("(EExec %s %s %s %s)", z(d.ID), slist(argIDs), slist(outIDs), errTerm))
+		return ret
+	}
+	var opts []am.Arg
+	if d.Once {
+		opts = append(opts, am.FuncOnce())
+	}
+	f, err := am.BuildFunc(in, out, cb, opts...)
+	if err != nil {
+		return err
+	}
+	d.fn = f
+	d.raw = f.Func()
+	ft := reflect.TypeOf(d.raw)
+	id, ok := rt.ftypes[ft]
+	if !ok {
+		id = 100 + len(rt.ftypes)
+		rt.ftypes[ft] = id
+	}
+	d.ftype = id
+	return nil
+}
+
 func (rt *runtimeT) materialise(d *FnDecl) error {
+	if d.Built {
+		return rt.materialiseBuilt(d)
+	}
 	ft := rt.funcType(d)
 	id, ok := rt.ftypes[ft]
 	if !ok {
@@ -216,6 +329,10 @@ func (rt *runtimeT) materialise(d *FnDecl) error {
 	}
 	d.ftype = id
 	body := func(args []reflect.Value) []reflect.Value {
+		if d.Ident {
+			rt.nexec++ // numbered like the library's internal identity function
+			return args
+		}
 		rt.nexec++
 		n := rt.nexec
 		// arguments as the function sees them, per declared input field
@@ -526,7 +643,7 @@ func (rt *runtimeT) decodeKey(k interface{}) (vkeyT, bool) {
 			if i < 0 {
 				return vkeyT{}, false
 			}
-			tid, ok := tidOfString[rest[:i]]
+			tid, ok := tidOfName(rest[:i])
 			if !ok {
 				return vkeyT{}, false
 			}
@@ -540,7 +657,7 @@ func (rt *runtimeT) decodeKey(k interface{}) (vkeyT, bool) {
 		if len(parts) != 3 {
 			return vkeyT{}, false
 		}
-		tid, ok := tidOfString[parts[1]]
+		tid, ok := tidOfName(parts[1])
 		if !ok {
 			return vkeyT{}, false
 		}
@@ -617,7 +734,7 @@ func (rt *runtimeT) classify(err error, targetRan bool) string {
 		return fmt.Sprintf("(ObsUnsat %s %s %s %s %s)", slist(args), slist(ins), slist(convs), boolc(full), boolc(msgOK))
 	}
 	for e, x := range rt.errs {
-		if errors.Is(err, x) && err == x {
+		if err == x {
 			return fmt.Sprintf("(ObsErrId %s)", z(e))
 		}
 	}
@@ -676,13 +793,16 @@ func rawOutTerm(v reflect.Value) string {
 	return zlist([]int{serialOf(v)})
 }
 
+var lastCores []string // observation + events of each op of the last scenario run (no tape)
+
 func runScenario(sc *Scenario, seed uint64, wd *int64) (terms []string, cats []string, panicked bool) {
+	lastCores = nil
 	rt := &runtimeT{sc: sc, errs: map[int]error{}, ftypes: map[reflect.Type]int{}, watchdog: wd}
 	for _, t := range concreteTys {
 		// identity function types of Convert get the ids the model expects
 		rt.ftypes[reflect.FuncOf([]reflect.Type{tyOf[t]}, []reflect.Type{tyOf[t]}, false)] = -1 - t
 	}
-	for _, t := range ifaceTys {
+	for _, t := range append([]int{30, 31}, ifaceTys...) {
 		rt.ftypes[reflect.FuncOf([]reflect.Type{tyOf[t]}, []reflect.Type{tyOf[t]}, false)] = -1 - t
 	}
 	for _, d := range sc.Funcs {
@@ -692,11 +812,47 @@ func runScenario(sc *Scenario, seed uint64, wd *int64) (terms []string, cats []s
 	}
 	redefs := map[int]*am.Func{}
 	redefIns := map[int][]am.Value{}
+	// Funcs with default options are created up front, the way user code
+	// does; default slices have spare capacity and may share a backing array
+	pre := map[int]*am.Func{}
+	preErr := map[int]bool{}
+	backing := map[int][]am.Arg{}
+	for oi := range sc.Ops {
+		op := &sc.Ops[oi]
+		if (op.Kind != "call" && op.Kind != "redefine") || len(op.Defaults) == 0 {
+			continue
+		}
+		var defs []am.Arg
+		if op.SharePrefix > 0 && backing[op.SharePrefix-1] != nil {
+			base := backing[op.SharePrefix-1]
+			extra := rt.goOpts(op.Defaults[len(sc.Ops[op.SharePrefix-1].Defaults):])
+			defs = append(base, extra...)
+		} else {
+			defs = make([]am.Arg, 0, len(op.Defaults)+8)
+			defs = append(defs, rt.goOpts(op.Defaults)...)
+		}
+		backing[oi] = defs
+		withRecover(func() {
+			f, err := am.NewFunc(sc.Funcs[op.Target].raw, defs...)
+			if err != nil {
+				preErr[oi] = true
+			} else {
+				pre[oi] = f
+			}
+		})
+	}
 	for oi := range sc.Ops {
 		op := &sc.Ops[oi]
 		rt.events = nil
+		if op.Kind == "convert" && (op.Ty == 30 || op.Ty == 31) {
+			dupTid = op.Ty
+		}
 		atomic.StoreInt64(wd, time.Now().UnixNano())
-		am.VerifOrdReset(seed+uint64(oi)*977, true)
+		os_ := seed + uint64(oi)*977
+		if op.OrdSeed != 0 {
+			os_ = op.OrdSeed
+		}
+		am.VerifOrdReset(os_, true)
 		var obs, cat string
 		var p bool
 		var pmsg string
@@ -707,9 +863,8 @@ func runScenario(sc *Scenario, seed uint64, wd *int64) (terms []string, cats []s
 				// defaults are attached at construction
 				f := d.fn
 				if len(op.Defaults) > 0 {
-					var err error
-					f, err = am.NewFunc(d.raw, rt.goOpts(op.Defaults)...)
-					if err != nil {
+					f = pre[oi]
+					if f == nil {
 						obs, cat = "(ObsCall ObsBuild 0 [])", "build"
 						return
 					}
@@ -750,15 +905,19 @@ func runScenario(sc *Scenario, seed uint64, wd *int64) (terms []string, cats []s
 					val = "(Some (-6))"
 				}
 				obs = fmt.Sprintf("(ObsConvert %s %s)", c, val)
+				if err == nil {
+					// the library's internal identity function ran once: the model
+					// numbers that execution too
+					rt.nexec++
+				}
 			})
 		case "redefine":
 			d := sc.Funcs[op.Target]
 			p, pmsg = withRecover(func() {
 				f := d.fn
 				if len(op.Defaults) > 0 {
-					var err error
-					f, err = am.NewFunc(d.raw, rt.goOpts(op.Defaults)...)
-					if err != nil {
+					f = pre[oi]
+					if f == nil {
 						obs, cat = "(ObsRedefine ObsBuild [])", "build"
 						return
 					}
@@ -830,6 +989,7 @@ func runScenario(sc *Scenario, seed uint64, wd *int64) (terms []string, cats []s
 			obs = fmt.Sprintf("(ObsPanic %s)", str(truncate(pmsg, 60)))
 		}
 		terms = append(terms, fmt.Sprintf("(mkOpObs %s %s %s)", obs, slist(rt.events), rt.tapeTerm(tape)))
+		lastCores = append(lastCores, obs+" "+slist(rt.events))
 		cats = append(cats, cat)
 	}
 	return
